@@ -34,7 +34,16 @@ bool reservedFitsKeyword(const char* key){
 	       strncmp("NAXIS", key, 5) == 0 ||
 	       strncmp("PERIOD", key, 6) == 0 ||
 	       strncmp("EXTEND", key, 6) == 0 ||
-	       strncmp("COMMENT", key, 7) == 0);
+	       strncmp("COMMENT", key, 7) == 0 ||
+	       //keywords which carry no value, end the header, or describe the
+	       //structure of the HDU cannot hold auxiliary data
+	       strncmp("HIERARCH", key, 8) == 0 ||
+	       strcmp("HISTORY", key) == 0 ||
+	       strcmp("CONTINUE", key) == 0 ||
+	       strcmp("END", key) == 0 ||
+	       strcmp("PCOUNT", key) == 0 ||
+	       strcmp("GCOUNT", key) == 0 ||
+	       key[0] == '\0');
 }
 
 uint32_t countAuxKeywords(fitsfile* fits){
